@@ -1255,6 +1255,15 @@ class Interp:
         return bool(v)
 
     def getattr(self, obj, name):
+        if isinstance(obj, (SymBase, SymFile)):
+            try:
+                return getattr(obj, name)
+            except AttributeError:
+                conc = _concrete_type_of(obj)
+                if conc is not None and hasattr(conc, name):
+                    # the real value would have this attribute, the model does not: outside the subset
+                    raise Unsupported(f"attribute {name!r} of a symbolic {conc.__name__} is not modelled")
+                raise
         if isinstance(obj, (SymBase, SymFile, type, types.ModuleType, super)) or type(obj) in (
             int, str, bytes, list, dict, tuple, set, float, bool, types.FunctionType,
             types.MethodType, InterpClosure, type(None),
@@ -1376,6 +1385,17 @@ class Interp:
 
 
 # ------------------------------------------------------------------------- helpers
+
+
+def _concrete_type_of(obj):
+    from .heap import SymList
+    from .strings import SymStr
+
+    for sym_t, conc in ((SymBool, bool), (SymInt, int), (models.SymByteArray, bytearray), (SymBytes, bytes),
+                        (SymFloatBase, float), (SymStr, str), (SymList, list), (SymFile, io.BytesIO)):
+        if isinstance(obj, sym_t):
+            return conc
+    return None
 
 
 def _hashable(x):
@@ -1705,6 +1725,12 @@ def _m_bytearray(I, *args, **kw):
     if kw:
         return bytearray(*args, **kw)
     return models.make_bytearray(*args)
+
+
+@model(int.from_bytes)
+def _m_from_bytes(I, data, byteorder="big", *, signed=False):
+    items = models.byte_items(data) if not isinstance(data, (list, tuple)) else list(data)
+    return models._unpack_int(list(items), len(items), signed, byteorder == "little") if items else 0
 
 
 @model(struct.calcsize)
